@@ -285,6 +285,26 @@ STATES = {
                                                           RP[4]: {'DISK_GB': 10}}), '1.39'),
         ('PUT', '/allocations/%s' % CONS[1], _alloc38(None, {RP[2]: {'CUSTOM_RC1': 1}}), '1.39'),
     ],
+    # trees that got their shape through MOVES: a root with descendants given its first parent below 1.37, a root attached
+    # deep below another tree, a subtree moved inside its tree at 1.37 (every descendant must follow its root)
+    'moved': [
+        ('POST', '/resource_providers', {'name': 'm-root', 'uuid': RP[0]}, '1.39'),
+        ('POST', '/resource_providers', {'name': 'm-child', 'uuid': RP[1], 'parent_provider_uuid': RP[0]}, '1.39'),
+        ('POST', '/resource_providers', {'name': 'm-grand', 'uuid': RP[2], 'parent_provider_uuid': RP[1]}, '1.39'),
+        ('POST', '/resource_providers', {'name': 'm-other', 'uuid': RP[3]}, '1.39'),
+        ('POST', '/resource_providers', {'name': 'm-third', 'uuid': RP[4]}, '1.39'),
+        ('PUT', '/resource_providers/%s/inventories' % RP[0], {'resource_provider_generation': 0, 'inventories': {'VCPU': _inv(8)}}, '1.39'),
+        ('PUT', '/resource_providers/%s/inventories' % RP[1], {'resource_provider_generation': 0, 'inventories': {
+            'SRIOV_NET_VF': _inv(4)}}, '1.39'),
+        ('PUT', '/resource_providers/%s/inventories' % RP[2], {'resource_provider_generation': 0, 'inventories': {'DISK_GB': _inv(100)}}, '1.39'),
+        ('PUT', '/resource_providers/%s/inventories' % RP[3], {'resource_provider_generation': 0, 'inventories': {
+            'MEMORY_MB': _inv(1024)}}, '1.39'),
+        ('PUT', '/resource_providers/%s/inventories' % RP[4], {'resource_provider_generation': 0, 'inventories': {'VCPU': _inv(4)}}, '1.39'),
+        ('PUT', '/resource_providers/%s' % RP[0], {'name': 'm-root', 'parent_provider_uuid': RP[3]}, '1.14'),
+        ('PUT', '/resource_providers/%s' % RP[4], {'name': 'm-third', 'parent_provider_uuid': RP[2]}, '1.20'),
+        ('PUT', '/resource_providers/%s' % RP[1], {'name': 'm-child', 'parent_provider_uuid': RP[3]}, '1.37'),
+        ('PUT', '/allocations/%s' % CONS[0], _alloc38(None, {RP[0]: {'VCPU': 2}, RP[2]: {'DISK_GB': 10}, RP[4]: {'VCPU': 1}}), '1.39'),
+    ],
     # everything allocated to the brim
     'full': [
         ('POST', '/resource_providers', {'name': 'full', 'uuid': RP[0]}, '1.39'),
@@ -1013,6 +1033,14 @@ CORPUS = [
     ('empty', 'PUT', '/resource_classes/CUSTOM_X%0A', '1.39', None, '/resource_classes/{name}|J-trailing-newline'),
     ('exotic', 'GET', '/allocation_candidates?resources=VCPU:1,DISK_GB:5', '1.39', None,
      '/allocation_candidates|nested-sharing-provider'),
+    # reads over trees that were shaped by moves (regression probes: every descendant must have followed its root)
+    ('moved', 'GET', '/allocation_candidates?resources=VCPU:1', '1.39', None, '/allocation_candidates|moved-trees'),
+    ('moved', 'GET', '/allocation_candidates?resources=VCPU:1,DISK_GB:5,MEMORY_MB:64', '1.39', None, '/allocation_candidates|moved-trees'),
+    ('moved', 'GET', '/allocation_candidates?resources=DISK_GB:5', '1.28', None, '/allocation_candidates|moved-trees'),
+    ('moved', 'GET', '/allocation_candidates?resources=VCPU:1&resources1=DISK_GB:5&in_tree=%s' % RP[3], '1.39', None,
+     '/allocation_candidates|moved-trees'),
+    ('moved', 'GET', '/resource_providers?in_tree=%s' % RP[2], '1.39', None, '/resource_providers|moved-trees'),
+    ('moved', 'GET', '/resource_providers?resources=DISK_GB:1&in_tree=%s' % RP[3], '1.39', None, '/resource_providers|moved-trees'),
     ('empty', 'GET', '/usages?project_id=p1&name=%E9', '1.39', None, '/usages|query-invalid-utf8'),
     ('empty', 'POST', '/resource_providers', '1.39', _deep(100000), '/resource_providers|deep-nesting'),
     ('basic', 'PUT', '/resource_providers/%s/traits' % RP[1], '1.39', _deep(1100), '/resource_providers/{uuid}/traits|deep-nesting'),
@@ -1401,7 +1429,7 @@ def run(chk):
         'valid request built type-directed from the schema the handler uses at that version with values aimed at the '
         'current state, then 0-3 malformations out of ~60 kinds (body tree, body bytes, content-type, accept, '
         'microversion header, query, path, extra headers, token, content-length, semantic conflicts) in 4 states '
-        '(empty, basic, exotic topologies, full); distinct = distinct (method, route, set of malformation kinds, '
+        '(empty, basic, exotic topologies, trees shaped by moves, full); distinct = distinct (method, route, set of malformation kinds, '
         'status, version if accepted); non-trivial = all (a request without malformation is the valid baseline).')
     return ok
 
